@@ -8,6 +8,8 @@ package c03
 //
 //	upf <cfg> <amb> <code>:<dt>:<reason>[:R]  =>  trace=… ledger=… done=… tm=-
 //
+// proxy7: the case is compared with the downstream machine (label `reset during UpFilter`: Drive/C03.lean upfModel); the
+// defect the kind was written for is fixed (mosn a3a21969e).
 // `:R` = when a retry follows (retriable reason, budget left) the new attempt is answered 200 afterwards.
 
 import (
